@@ -20,31 +20,31 @@ CHECKS = {
     "C04": e1("DESIGN.md section 4 C04", "Bin-completion is compared with the exhaustive optimum on every multiset of the scope, in two presentation orders and three output types.", "branch-and-bound optimum as oracle (cross-validated against subset DP)"),
     "C05": e1("DESIGN.md section 4 C05", "All multisets (items larger than the bin included) x bin sizes x covering algorithms x formats are judged for cover validity, single use of items and waste below one bin.", "validity oracle recomputed from the returned items"),
     "C06": e1("DESIGN.md section 4 C06", "Every point is executed with all ten output types; the nine cheaper outputs must equal what is derived from the full partition output.", "differential oracle between output types of the same call"),
-    "C07": e1("DESIGN.md section 4 C07", "Every point is executed in five input formats with names anti-correlated to the values; sums multisets must agree and the named result must be a valid partition/packing/cover of the names.", "differential oracle across formats + validity oracle on names"),
+    "C07": e1("DESIGN.md section 4 C07", "Every point is executed in seven input formats (list, numpy array, dict with string / integer names, names + value function with unique names, with one name per distinct value repeated, and as a numpy array of identifiers), names anti-correlated to the values; sums multisets must agree and the named result must be a valid partition/packing/cover of the names.", "differential oracle across formats + validity oracle on names"),
     "C08": e1("DESIGN.md section 4 C08", "The proven ratio and gap bounds of greedy, KK, multifit and round-robin are checked as exact integer inequalities against the exhaustive optimum, all planted instances and LPT's tight family.", "exhaustive optimum / optimum known by construction"),
     "C09": e1("DESIGN.md section 4 C09", "The any-fit inequality and the bin-count bounds are checked on every arrival order of the scope, every multiset for the decreasing variants and every planted perfect packing.", "invariant on the observed packing; exhaustive / planted optimum for the count bounds"),
     "C10": e1("DESIGN.md section 4 C10", "The approximation guarantees of the three covering heuristics are checked against the exhaustive cover optimum, every planted exact cover and the published worst-case families.", "exhaustive cover optimum (count-vector DP) / optimum known by construction"),
     "C11": dict(engine="E3", cat="fault_enumeration", ref="DESIGN.md section 2 E3, section 4 C11",
                 technique="exhaustive enumeration of every interruption point (counting clock injected through the module seam) x every input/configuration of the scope, executed on the real code",
-                text="For every (input, configuration) the complete set of clock readings at which the time-limit test can fire is enumerated (0..T) and every cut is executed; validity, monotonic improvement, LPT first solution and optimality of the full run are judged against exhaustive oracles. This is every behaviour under any monotone clock within the input bounds.",
+                text="For every (input, configuration) the complete set of clock readings at which the time-limit test can fire is enumerated (0..T) and every cut is executed; validity, monotonic improvement, LPT first solution and optimality of the full run are judged against exhaustive oracles; an interrupted call precedes an unlimited one and an unlimited one follows all cuts (both must be optimal). This is every behaviour under any monotone clock within the input bounds.",
                 note="Assumes the algorithms consult the clock only through the module-global `time` (asserted per run) and a monotone clock. Trusted base: mc/clock.py, oracles."),
     "C12": e1("DESIGN.md section 4 C12", "CBLDM is compared with the exhaustive bounded two-way optimum on every multiset of the scope and every cardinality bound 1..n and the default.", "reachable (cardinality,sum) oracle, cross-validated against 2^n enumeration"),
     "C13": e1("DESIGN.md section 4 C13", "The three documented extension points are enumerated directly: lower bounds against the minimum over all compositions of the remaining total, the inclusion/exclusion tree against all 2^n subsets for every half-integer window, all_combinations against all k! pairings for both managers.", "exhaustive reference enumerations (compositions / subsets / permutations)"),
     "C14": e1("DESIGN.md section 4 C14", "Nine executable reference models transcribed from the documented rules are run in lock-step with the implementation on every input of the scope; sums multisets (and bins where the rule leaves no freedom) must agree.", "reference models in the implementation language, conformance checked on every enumerated input (traces_validated_against_impl)",
               note="The reference models (mc/models.py) are the trusted base; bounds in evidence.coverage.bounds."),
     "C15": dict(engine="E4", cat="model_checking", ref="DESIGN.md section 2 E4, section 4 C15",
-                technique="call-history exploration: all ordered call pairs from a pristine forked interpreter, module-state fingerprint closure (one reachable abstract state), Eulerian chain through all ordered pairs, all interleavings of two live generators, plus an exhaustive argument-preservation sweep",
-                text="Every history of length <= 2 over the call alphabet is executed in a fresh process and compared with singleton references; the fingerprint closure extends history independence to histories of any length over the alphabet; the chain exercises every ordered pair from non-initial states; generator pairs are explored under all schedules; arguments and earlier results are deep-compared on a complete small scope.",
-                note="The fingerprint covers module globals, function defaults/closures, class attributes and reachable prtpy instances; state hidden elsewhere is covered by depth-2 + chain only. CBC is warmed up once in the parent through mip, not through prtpy."),
+                technique="call-history exploration on the real code: all ordered call pairs from a pristine forked interpreter, an Eulerian chain through all ordered pairs, grid chains (per family of algorithms sharing code, a dense grid of calls whose neighbours differ in one argument, run as one history in three visiting orders and compared call by call with freshly forked pristine processes), all interleavings of two live generators, an exhaustive argument-preservation sweep, and a module-state fingerprint closure reported as coverage",
+                text="Every history of length <= 2 over the call alphabet is executed in a fresh process and compared with singleton references; the alphabet chain and the grid chains (about 31 000 calls, 93 000 chain steps in the quick tier) exercise long histories from non-initial states with colliding arguments (same items under other bin sizes / bin counts / objectives / switches / output types / formats, cut-off calls before unlimited ones, one shared names list + value table + value function mutated in place, one objective object re-used across calls); generator pairs are explored under all schedules; arguments and earlier results are deep-compared on a complete small scope. If every call maps the fingerprinted module state to itself the evidence also states the closure argument (history independence for histories of any length over the alphabet).",
+                note="A change of the fingerprinted module state is an observation, not a violation (a cache with a complete key changes state and no result): decisions rest on compared results. The fingerprint covers module globals, function defaults/closures/attributes, lru caches, class attributes and reachable prtpy instances. CBC is warmed up once in the parent through mip, not through prtpy."),
     "C16": dict(engine="E2", cat="model_checking", ref="DESIGN.md section 2 E2, section 4 C16",
                 technique="explicit-state breadth-first search over bins-manager operation histories with canonical-state de-duplication (contents + aliasing signature) and a reference model stepped in lock-step on real objects rebuilt by replay",
-                text="All operation sequences up to the depth bound on a pool of live arrays are explored for both managers; after every transition every observable of every live array is compared with the model, and arguments documented as unmodified are compared before/after the call.",
+                text="All operation sequences up to the depth bound on a pool of live arrays are explored for both managers (and, at a smaller bound, with items built as short-lived records and with an item of magnitude 2**24+1); after every transition every observable of every live array is compared with the model, and arguments documented as unmodified are compared before/after the call.",
                 note="Bounds: evidence.coverage.bounds (live arrays, bins, depth). Hand-over discipline is part of the transition relation. Trusted base: the list-of-lists model in mc/props/c16.py."),
     "C17": e1("DESIGN.md section 4 C17", "Copies, weights and additional constraints (every constant c, infeasible ones included) are enumerated one family at a time and in pairs and judged against an enumeration of all count matrices under the documented model; every solver status is injected through the module seam.", "exhaustive count-matrix oracle + fault injection of every mip.OptimizationStatus",
               note="Weighted optimality is judged against the documented model (ascending weighted sums, DESIGN C17). CBC inconsistencies are separated by re-solving with preprocessing off and counted in evidence.observations."),
     "C18": e1("DESIGN.md section 4 C18", "Metamorphic relations (all permutations, scale factors, added zeros) and pairwise agreement of the exact algorithms on completely enumerated families beyond oracle size are checked by differential comparison of real runs.", "metamorphic / differential oracle between related real executions; no time-outs"),
     "C19": e1("DESIGN.md section 4 C19", "Every request of the scope that must be refused (oversize item at every position x packer x format x output type; one invalid CBLDM argument at a time; numitems on the sums-only manager) is executed and must raise.", "exception-type oracle"),
-    "C20": e1("DESIGN.md section 4 C20", "Every sum vector of the scope in three containers, every k-parameter and weight vector, with and without the sorted flag, is compared with the documented definitions re-implemented on plain lists.", "definitions re-implemented independently as oracle"),
+    "C20": e1("DESIGN.md section 4 C20", "Every sum vector of the scope (short vectors densely, long vectors up to 65 entries over 2-3 letters, magnitudes up to 2**50) in three containers, every k-parameter and weight vector, with and without the sorted flag, is compared with the documented definitions re-implemented on plain lists; one container object is walked through all vectors by in-place mutation with the objective objects re-used, and every sequence of up to three calls on one objective object is followed by evaluations that must still equal the definition.", "definitions re-implemented independently as oracle"),
 }
 
 NOT_YET = "no check built"
